@@ -431,7 +431,7 @@ class Gen(object):
         intv = lambda: self.expr('int', self.maxdepth - 1)
         kinds = ['fcall_stmt', 'fcall_value', 'mix', 'classop', 'classop_value', 'bridge', 'bridge_assign', 'enum', 'const',
                  'bridge_value', 'ref_read']
-        kinds += ['udt_call', 'redeclare', 'array', 'array']
+        kinds += ['udt_call', 'redeclare', 'array', 'array', 'nested_call', 'nested_call']
         if self.home != 'derived':
             kinds += ['param', 'param_if', 'udt_param']        # a derived attribute has no parameters
         la = self.live_insts('A')
@@ -476,6 +476,26 @@ class Gen(object):
                 out.append(If(Bin('>', idx(V(arr), anyidx()), I(r.randint(0, 5))),
                               scoped(lambda: [Assign(idx(V(arr), anyidx()), I(0))])))
             return out
+        if k == 'nested_call':
+            # an invocation statement whose arguments are invocations themselves: of the same kind and of other kinds
+            inner = lambda: r.choice([
+                lambda: {'t': 'fcall', 'n': 'fact', 'ps': ps(n=intv())},
+                lambda: {'t': 'icall', 'kind': 'implicit', 'ns': 'A', 'n': 'cop', 'ps': ps(x=intv())},
+                # (an invocation written NS::name(...) inside an expression is of the implicit kind)
+                lambda: {'t': 'icall', 'kind': 'implicit', 'ns': 'EE1', 'n': 'br', 'ps': ps(s=Str('in'), n=intv())},
+                lambda: Bin('+', {'t': 'fcall', 'n': 'fact', 'ps': ps(n=I(r.randint(0, 3)))}, I(1))])()
+            outer = r.choice(['fcall', 'classop', 'bridge', 'mix'])
+            if outer == 'fcall':
+                inv = {'t': 'fcall', 'n': 'fact', 'ps': ps(n=inner())}
+            elif outer == 'classop':
+                inv = {'t': 'icall', 'kind': 'implicit', 'ns': 'A', 'n': 'cop', 'ps': ps(x=inner())}
+            elif outer == 'bridge':
+                inv = {'t': 'icall', 'kind': 'bridge', 'ns': 'EE1', 'n': 'br', 'ps': ps(s=self.expr('str', self.maxdepth), n=inner())}
+            else:
+                args = [('a', inner()), ('b', inner()), ('s', Str('x')), ('f', B(True))]
+                r.shuffle(args)
+                inv = {'t': 'fcall', 'n': 'mix', 'ps': [{'n': a, 'e': e} for a, e in args]}
+            return {'t': 'call', 'inv': inv}
         if k == 'fcall_stmt':
             return {'t': 'call', 'inv': {'t': 'fcall', 'n': 'fact', 'ps': ps(n=intv())}}
         if k == 'fcall_value':
